@@ -1,4 +1,5 @@
 mod cdlevel;
+mod clilevel;
 mod container;
 mod declared;
 mod decodelevel;
@@ -7,6 +8,7 @@ mod gen;
 mod memolevel;
 mod names;
 mod oracle;
+mod pathlevel;
 mod props;
 mod sig;
 mod sigdump;
@@ -81,6 +83,22 @@ fn main() {
             let n = arg(&args, "--rounds").and_then(|s| s.parse().ok()).unwrap_or(6);
             let r = memolevel::run_threads(seed, n, &out);
             eprintln!("threads: {} evaluations, {} violations", r["evaluations"], r["violations"].as_array().unwrap().len());
+        }
+        "cli" => {
+            let n = arg(&args, "--n").and_then(|s| s.parse().ok()).unwrap_or(60);
+            let bin = arg(&args, "--bin").unwrap_or("/verif/_build/cli_target/debug/normalizer".into());
+            let scratch = arg(&args, "--scratch").unwrap_or("/verif/_build/scratch".into());
+            let r = clilevel::run(seed, n, &bin, &scratch, &driver, &out);
+            eprintln!("cli: {} invocations, {} disagreements, {} violations", r["evaluations"], r["disagreements"].as_array().unwrap().len(), r["violations"].as_array().unwrap().len());
+        }
+        "path" => {
+            let n = arg(&args, "--n").and_then(|s| s.parse().ok()).unwrap_or(60);
+            let scratch = arg(&args, "--scratch").unwrap_or("/verif/_build/scratch".into());
+            let r = pathlevel::run(seed, n, &scratch, &out);
+            eprintln!("path: {} evaluations, {} violations", r["evaluations"], r["violations"].as_array().unwrap().len());
+        }
+        "path-child" => {
+            pathlevel::child(args.get(2).map(|s| s.as_str()).unwrap_or(""));
         }
         "total" => {
             let n = arg(&args, "--n").and_then(|s| s.parse().ok()).unwrap_or(200);
